@@ -1013,6 +1013,35 @@ def reported_tie(rep, cases, limit=600):
                            impl=a[:200]))
 
 
+LAYOUT_CONFLICTS = [
+    "S: A+;\nA: Ta;\nLayout: LayoutItem*;\nLayoutItem: WS+ | Comment;\nterminals\nTa: 'a';\nWS: /\\s/;\nComment: /#[^\\n]*/;\n",
+    "S: A+;\nA: Ta;\nLayout: LayoutItem*;\nLayoutItem: L1 | L2;\nL1: WS;\nL2: WS;\nterminals\nTa: 'a';\nWS: /\\s+/;\n",
+    "S: A+;\nA: Ta;\nLayout: LayoutItem*;\nLayoutItem: WS | Comment;\nterminals\nTa: 'a';\nWS: /\\s+/;\nComment: /#[^\\n]*/;\n",   # control
+]
+
+
+def layout_reported(rep):
+    """'reported (LR)' also holds for a conflict inside the Layout rule's automaton: table dump (all states) vs the real
+    `process_grammar` outcome, for the three table types"""
+    n_bad = 0
+    for text in LAYOUT_CONFLICTS:
+        for tt in ("LALR", "LALR_PAGER", "LALR_RN"):
+            st = f"LR {tt} - - - - - - - -"
+            ans = run_vdyn([[f"G {st} " + hx(text), f"C G F {st} " + hx(text)]], tag="c05-layout")[0]
+            if not ans[0].startswith("dump ok "):
+                rep.count("layout_reported:dump-" + ans[0].split(" ")[1])
+                continue
+            confl = tp.parse_dump(ans[0][8:])["conflicts"]
+            got_err = ans[1].startswith("compile err conflicts")
+            rep.count("layout_reported:" + ("conflict" if confl else "clean") + ":" + ("reported" if got_err else "compiled"))
+            if (confl > 0) != got_err and (got_err or ans[1].startswith("compile ok")):
+                n_bad += 1
+                if len(rep.violations) < 3:
+                    rep.violation({"grammar": text, "settings": st, "tag": "layout-reported", "kind": "impl!=oracle",
+                                   "why": f"the Layout automaton of the table has {confl} unresolved conflict(s) in LR mode, the compiler answers: {ans[1][:80]}"})
+    rep.counters["layout_reported_failures"] = n_bad
+
+
 def run(rep, tier, seed):
     rng = random.Random(seed)
     proofs_ok = lean_obligations(rep, PROP_MODULE)
@@ -1036,6 +1065,7 @@ def run(rep, tier, seed):
         "ops: expression grammars x all priority/associativity assignments x random operator strings vs precedence climbing")
     failures, corr = evaluate(rep, cases, proofs_ok)
     reported_tie(rep, cases)
+    layout_reported(rep)
     ofails = run_ops(rep, ops_cases(rng, tier))
     rep.counters["ops_failures"] = len(ofails)
     for payload, _ in sorted(ofails, key=lambda f: (len(f[0]["grammar"]), len(f[0].get("input", ""))))[:max(0, 3 - len(rep.violations))]:
@@ -1054,6 +1084,15 @@ def replay(rep, path):
     p = json.load(open(path))
     if not os.environ.get("C05_VDYN"):
         build_harness()
+    if p.get("tag") == "layout-reported":
+        st = p["settings"]
+        ans = run_vdyn([[f"G {st} " + hx(p["grammar"]), f"C G F {st} " + hx(p["grammar"])]], tag="c05-replay")[0]
+        if ans[0].startswith("dump ok "):
+            confl = tp.parse_dump(ans[0][8:])["conflicts"]
+            got_err = ans[1].startswith("compile err conflicts")
+            if (confl > 0) != got_err:
+                rep.violation(dict(p, replayed=ans[1][:200]))
+        return
     if p.get("tag") == "ops":
         text = p["grammar"]
         st = p.get("settings", "LR LALR_PAGER 0 1").split(" ")
